@@ -148,7 +148,11 @@ def meta_order():
     global _META_ORDER
     if _META_ORDER is None:
         import extract
-        _META_ORDER = [n for n, _ in extract.metadata_lookup_order()]
+        try:
+            _META_ORDER = [n for n, _ in extract.metadata_lookup_order()]
+        except Exception:  # noqa: BLE001 - refactored source: fall back to the dataclass field order
+            import chartparse.metadata as M
+            _META_ORDER = [f.name for f in dataclasses.fields(M.Metadata)]
     return _META_ORDER
 
 
